@@ -604,6 +604,11 @@ def r6_upper_bound_agreement(ctx):
     clause_upper_bound_agreement(ctx, "hash")
 
 
+def r8_by_value(ctx):
+    from .c03 import r8_settings_by_value
+    r8_settings_by_value(ctx)
+
+
 RULES = [
     ("C12-R1", "hash covers axes, preprocessing and every settings key; "
      "only the documented don't-cares are conditional", r1_coverage),
@@ -618,4 +623,6 @@ RULES = [
      r6_upper_bound_agreement),
     ("C12-R7", "a changed setting drops the stored hash (reset or equality "
      "fact on every storing path)", r7_stored_hash_invalidated),
+    ("C12-R8", "settings are stored by (deep) value: an in-place edit of a "
+     "passed object cannot change a setting behind the hash", r8_by_value),
 ]
